@@ -24,7 +24,7 @@ REQUIRED = ['core/matcher.py:parse', 'core/matcher.py:MessagePattern.matches', '
 
 def plan(tier, seed):
     if tier == 'quick':
-        return [{'exprs': 260, 'n_each': [60, 110]} for _ in range(16)]
+        return [{'exprs': 800, 'n_each': [60, 110]} for _ in range(16)]
     return [{'exprs': 5000, 'n_each': [80, 200]} for _ in range(64)]
 
 
